@@ -112,6 +112,8 @@ def alphabet():
     um("u(HasAny,'{\"x\":[1]}')", "json", HasAny, lambda: '{"x":[1]}')
     um("u(TDj,'{\"a\":[1]}')", "json", TDj, lambda: '{"a":[1]}')
     um("u(Any-list,[1,[2]])", "json", lambda: list[typing.Any], lambda: [1, [2]])
+    um("u(tuple,'([1,2],{\"a\":[3]})')", "json", tuple, lambda: "([1, 2], {'a': [3]})")
+    ops.append(Op("load('([1],)')", "json", "load", lambda x: __import__("typelib").serdes.load(x), lambda: "([1], {'k': [2]})"))
     ops.append(Op("decode(list,b'[1,2]')", "json", "decode", lambda x: typelib.decode(list, x), lambda: b"[1,2]"))
     ops.append(Op("encode([1,2],list[int])", "json", "encode", lambda x: typelib.encode(x, t=list[int]), lambda: [1, 2]))
     um("u(Node,nested)", "cyclic", Node, lambda: {"v": "1", "kids": [{"v": "2", "kids": [{"v": "3"}]}]})
